@@ -121,7 +121,8 @@ C01_Design ==
         /\ res.j \in 1..n /\ sentNow[res.j].ipttl = res.ttl /\ res.ip = d.pk.src
         /\ \/ Quotes(cfg.v, cfg.strict, sentNow[res.j], d.pk)
            \/ ~IsSYNv(cfg.v) /\ Direct(cfg.v, sentNow[res.j], d.pk)
-           \/ IsSYNv(cfg.v) /\ res.j = n /\ \E k \in 1..n : Direct(cfg.v, sentNow[k], d.pk)
+           \/ IsSYNv(cfg.v) /\ ~Caveat(cfg.v, d.pk) /\ Direct(cfg.v, sentNow[res.j], d.pk)
+           \/ Caveat(cfg.v, d.pk) /\ res.j = n /\ \E k \in 1..n : Direct(cfg.v, sentNow[k], d.pk)
 
 \* C02 at design level: every catalogue-form genuine reply to a sent probe yields that probe's hop
 C02_Design ==
